@@ -1718,6 +1718,13 @@ impl<'a> Socket<'a> {
             // In LISTEN and SYN-SENT states, we have not yet synchronized with the remote end.
             State::Listen | State::SynSent => (&[][..], 0),
             _ => {
+                // A RST is judged by its own sequence number (RFC 9293 3.10.7.4): text that it
+                // carries does not bring a sequence number left of the window into it.
+                if repr.control == TcpControl::Rst && segment_start < window_start {
+                    net_debug!("dropping RST left of the receive window");
+                    return None;
+                }
+
                 // https://www.rfc-editor.org/rfc/rfc9293.html#name-segment-acceptability-tests
                 let segment_in_window = match (
                     segment_start == segment_end,
